@@ -481,7 +481,7 @@ type srcCase struct {
 	Src    string `json:"-"`
 }
 
-type nestCase struct{ gi, si int }
+type nestCase struct{ gi, si, opt int }
 
 // generators whose text does not depend on n are enumerated once
 func nestCases(quick bool) []nestCase {
@@ -494,7 +494,18 @@ func nestCases(quick bool) []nestCase {
 			if quick && (nestSizes[si] == 9000 || nestSizes[si] == 40 || nestSizes[si] == 2000) {
 				continue
 			}
-			out = append(out, nestCase{gi, si})
+			switch {
+			case quick:
+				out = append(out, nestCase{gi, si, -1}) // one combination per case, varying with the index
+			case nestSizes[si] <= 300:
+				for o := 0; o < 64; o++ { // all FileOptions combinations
+					out = append(out, nestCase{gi, si, o})
+				}
+			default: // the large sizes (seconds each): no option, all options, each option alone
+				for _, o := range []int{0, 63, 1, 2, 4, 8, 16, 32} {
+					out = append(out, nestCase{gi, si, o})
+				}
+			}
 		}
 	}
 	return out
@@ -519,8 +530,7 @@ func newSrcMode(o *opts) *srcMode {
 	m.nRand = 500
 	if o.tier == "thorough" {
 		m.allOpt = true
-		m.nNest *= 64
-		m.nRand = 20000
+		m.nRand = 12000
 	}
 	if o.n > 0 {
 		m.nRand = o.n
@@ -573,10 +583,9 @@ func (m *srcMode) decode(i int64) srcCase {
 	}
 	if i < m.nNest {
 		k := i
-		op := int((i*37 + 5) % 64)
-		if m.allOpt {
-			op = int(i % 64)
-			k = i / 64
+		op := m.nc[k].opt
+		if op < 0 {
+			op = int((i*37 + 5) % 64)
 		}
 		gi, si := m.nc[k].gi, m.nc[k].si
 		s, n := nestSource(gi, si)
